@@ -86,3 +86,10 @@ Definition sx_zero_guard (a b : pynum) (mx : float) : sx :=
   | Some x, Some y => sx_bool (zero_guard x y mx)
   | _, _ => SA "None"
   end.
+
+(* new_type(old_value) != new_value for the type changes of one run, as a table *)
+Definition tbl_incl (t : list (value * value * bool)) (a b : value) : bool :=
+  match find (fun x => value_eqb (fst (fst x)) a && value_eqb (snd (fst x)) b) t with
+  | Some x => snd x
+  | None => true
+  end.
